@@ -376,5 +376,10 @@ def rules(rep, facts):
         rep.notes.append(f'configuration {facts.config}: parser not compiled, reader-side comparisons skipped.')
 
 
+def _witnesses(rep):
+    from .witness import report
+    report(rep, 'C10/R5b', 'type level (compile-fail witnesses): default styles are total, optional styles may refuse', ['w05_default_string_style_is_total', 'w06_default_key_style_is_total', 'w08_literal_style_may_refuse'])
+
+
 def run(tier):
-    return run_property(PROP, tier, rules, configs_thorough=['default', 'perf', 'write_nodefault', 'write_alloc', 'edit_display'])
+    return run_property(PROP, tier, rules, configs_thorough=['default', 'perf', 'write_nodefault', 'write_alloc', 'edit_display'], extra=_witnesses if tier == 'thorough' else None)
